@@ -60,6 +60,7 @@ type Term struct {
 	name string
 	args []*Term
 	id   int
+	wide bool // contains an uninterpreted function over more than 64 bits
 }
 
 type termKey struct {
@@ -107,6 +108,14 @@ func (tt *TermTable) mk(op Op, w int, c uint64, name string, args []*Term) *Term
 		return t
 	}
 	t := &Term{op: op, w: w, c: c, name: name, args: args, id: len(tt.all)}
+	for _, a := range args {
+		if a.wide || (op == OpUF && a.w > 64) {
+			t.wide = true
+		}
+	}
+	if op == OpUF && w > 64 {
+		t.wide = true
+	}
 	tt.tab[k] = t
 	tt.all = append(tt.all, t)
 	return t
